@@ -7,6 +7,7 @@ import numpy as np
 from hypothesis import strategies as st
 
 from vf import retro
+from vf import randomctl
 from vf import strategies as S
 from vf.engine import Violation, require
 
@@ -19,6 +20,7 @@ RULE = (
     "the sparse-cover initial plate (both flag values, on the fully observed screen) and the combination filter, with drawn parameters/seed. Operators that "
     "raise are counted, not flagged. Non-trivial = >=2 samples at or below the size limit (segregating) or >=2 samples to drop (n-plate) or >=3 plates in one "
     "sample (merge smoothers). distinct = distinct case JSON."
+    ' In half the cases the generator handed over is a PCG64 whose stream repeats words at drawn positions (vf.randomctl.StutterGenerator).'
 )
 ASSUMPTIONS = [
     "guarantees are asserted on the unobserved plates of the returned screen (the observed part passes through: C11)",
@@ -41,6 +43,7 @@ def _case(draw):
     return {
         "screen": sc,
         "seed": draw(st.integers(0, 2**32 - 1)),
+        "stutter": draw(randomctl.stutter_patterns()),  # a generator whose consecutive draws sometimes coincide
         "max_plate_size": draw(st.integers(1, 6)),
         "pairwise": {"name": "Pairwise", "subset_size": draw(st.sampled_from([1, 1, 2, 3])), "anchor_size": draw(st.sampled_from([0, 0, 1, 2]))},
         "plate_size": draw(st.integers(1, 5)),
@@ -124,7 +127,7 @@ def check_case(case):
     # ---- SampleSegregating
     screen = S.build_screen(sc_any)
     mx = case["max_plate_size"]
-    out = _run("SampleSegregating", lambda: _mk(R.SampleSegregatingPermutationPlateGenerator, max_plate_size=mx).generate_plates(screen, np.random.default_rng(seed)), labels)
+    out = _run("SampleSegregating", lambda: _mk(R.SampleSegregatingPermutationPlateGenerator, max_plate_size=mx).generate_plates(screen, randomctl.make_rng(seed, case.get("stutter"))), labels)
     if out is not None:
         labels.append("ran:SampleSegregating")
         per_sample = collections.Counter(str(screen.sample_names[i]) for i in range(screen.size) if not bool(screen.observation_mask[i]))
@@ -138,7 +141,7 @@ def check_case(case):
 
     # ---- Pairwise
     screen = S.build_screen(case.get("pairwise_screen") or sc_any)
-    out = _run("Pairwise", lambda: retro.apply_operator(case["pairwise"], screen, np.random.default_rng(seed)), labels)
+    out = _run("Pairwise", lambda: retro.apply_operator(case["pairwise"], screen, randomctl.make_rng(seed, case.get("stutter"))), labels)
     if out is not None:
         labels.append("ran:Pairwise")
         for p, rows in _unobs_plates(out).items():
@@ -154,7 +157,7 @@ def check_case(case):
         screen = S.build_screen(lay)
         before = {p: len(rows) for p, rows in _unobs_plates(screen).items()}
         smoother = smoothers[name]
-        out = _run(name, lambda: smoother.smooth_plates(screen, np.random.default_rng(seed)), labels)
+        out = _run(name, lambda: smoother.smooth_plates(screen, randomctl.make_rng(seed, case.get("stutter"))), labels)
         if out is None or not before:
             continue
         labels.append("ran:" + name)
@@ -184,7 +187,7 @@ def check_case(case):
         sizes_per_sample[_samples(screen, rows)[0]].append(len(rows))
 
     k = case["k"]
-    out = _run("NPlatePerCellLine", lambda: _mk(R.NPlatePerCellLineSmoother, min_n_cell_line_plates=k).smooth_plates(screen, np.random.default_rng(seed)), labels)
+    out = _run("NPlatePerCellLine", lambda: _mk(R.NPlatePerCellLineSmoother, min_n_cell_line_plates=k).smooth_plates(screen, randomctl.make_rng(seed, case.get("stutter"))), labels)
     if out is not None and un:
         labels.append("ran:NPlatePerCellLine")
         drop = sorted(s for s, c in plates_per_sample.items() if c < k)
@@ -200,7 +203,7 @@ def check_case(case):
 
     ms = case["min_size"]
     screen = S.build_screen(sc)
-    out = _run("MergeMin", lambda: _mk(R.MergeMinPlateSmoother, min_size=ms).smooth_plates(screen, np.random.default_rng(seed)), labels)
+    out = _run("MergeMin", lambda: _mk(R.MergeMinPlateSmoother, min_size=ms).smooth_plates(screen, randomctl.make_rng(seed, case.get("stutter"))), labels)
     if out is not None and un:
         labels.append("ran:MergeMin")
         if max(plates_per_sample.values()) >= 3:
@@ -226,7 +229,7 @@ def check_case(case):
 
     it = case["n_iterations"]
     screen = S.build_screen(sc)
-    out = _run("MergeTopBottom", lambda: _mk(R.MergeTopBottomPlateSmoother, n_iterations=it).smooth_plates(screen, np.random.default_rng(seed)), labels)
+    out = _run("MergeTopBottom", lambda: _mk(R.MergeTopBottomPlateSmoother, n_iterations=it).smooth_plates(screen, randomctl.make_rng(seed, case.get("stutter"))), labels)
     if out is not None and un:
         labels.append("ran:MergeTopBottom")
         got = collections.Counter()
@@ -246,7 +249,7 @@ def check_case(case):
         continue
       full = S.build_screen(dict(csc, observed=sorted({r["p"] for r in csc["rows"]})))
       flag = case["cover_flag"]
-      out = _run("SparseCover", lambda: _mk(R.SparseCoverPlateGenerator, reveal_single_treatment_experiments=flag).generate_and_unmask_initial_plate(full, np.random.default_rng(seed)), labels)
+      out = _run("SparseCover", lambda: _mk(R.SparseCoverPlateGenerator, reveal_single_treatment_experiments=flag).generate_and_unmask_initial_plate(full, randomctl.make_rng(seed, case.get("stutter"))), labels)
       if out is not None:
           labels.append("ran:SparseCover")
           require(out.size == full.size, "cover.size", "sparse cover changed the number of experiments")
